@@ -4,6 +4,10 @@ REAL_RING = ['lib/ringbuffer.c', 'lib/ringbuffer_helper.c', 'lib/unix.c (real /d
 
 HARNESSES = {
     'ring_coarse': {'src': ['harness/ring_coarse.cc'], 'flavours': {}, 'rt': []},
+    'ring_conc_t': {'src': ['harness/ring_conc.cc'], 'flavours': {'ringbuffer.c': 'tsan', 'ringbuffer_helper.c': 'tsan'},
+                    'rt': ['rt_tsan.o'], 'cxxflags': ['-DHARNESS_NAME="ring_conc_t"', '-DORDER_CHECK=1']},
+    'ring_conc_a': {'src': ['harness/ring_conc.cc'], 'flavours': {'ringbuffer.c': 'acc', 'ringbuffer_helper.c': 'acc'},
+                    'rt': ['rt_sancov.o'], 'cxxflags': ['-DHARNESS_NAME="ring_conc_a"']},
 }
 
 PROPS = {
@@ -25,6 +29,43 @@ PROPS = {
         'assumptions': ['single caller; operation-level histories only (intra-operation interleavings are C01)',
                         'kernel tmpfs/mmap behave as documented'],
     },
+}
+
+PROPS['C01'] = {
+    'parts': [{'harness': 'ring_conc_t', 'chunk': 200, 'share': 3.0}, {'harness': 'ring_conc_a', 'chunk': 200, 'share': 1.0}],
+    'quick_s': 45, 'thorough_s': 900,
+    'level_quick': 'exploration', 'level_thorough': 'exploration',
+    'rule': 'one evaluation = one seeded (workload, schedule, fault) triple: a writer task and a reader task on one real shared ring '
+            '(two qb_rb_open handles on the same files), preemptible at every access ring code makes to the shared header/data words, '
+            'every payload word copied, and every semaphore call; FIFO reference model checked per operation and at quiescence; '
+            'non-trivial = at least one write and one read succeeded and the baton changed hands more than twice; distinct = distinct '
+            'fingerprint of the (yield site, task switched to) sequence',
+    'level_text': 'seeded search over interleavings at shared-access granularity (sequentially consistent), lengths, sizes, wrap positions, '
+                  'with and without the semaphore, plus a publish-edge memory-order check; samples, does not enumerate',
+    'level_note': 'interleavings are sequentially consistent (weak-memory reorderings are only covered by the publish-edge ordering check in the '
+                  'tsan-instrumented variant); scheduling points come from compiler instrumentation of ringbuffer.c / ringbuffer_helper.c, '
+                  'so accesses the compiler elides or merges are not separate points; real /dev/shm files and double mapping',
+    'technique': 'deterministic simulation: seeded scheduler over real threads with one baton, preemption at every instrumented shared access, '
+                 'EINTR fault injection on semaphore waits, FIFO reference model, ddmin replay',
+    'design_ref': 'DESIGN.md 4/C01',
+    'real': REAL_RING, 'stub': ['POSIX semaphore (value kept by the shim inside the real shared header)', 'thread scheduling', 'clock'],
+    'assumptions': ['sequentially consistent interleavings', 'one writer and one reader, as the API requires'],
+}
+
+PROPS['C11'] = {
+    'parts': [{'harness': 'ring_coarse', 'chunk': 400}],
+    'quick_s': 30, 'thorough_s': 600,
+    'level_quick': 'exploration', 'level_thorough': 'exploration',
+    'rule': 'one evaluation = one seeded history on a fresh overwrite ring (writes of tiny to near-capacity chunks, single reads and '
+            'full drains placed at seeded points between operations); the drained sequence must be a suffix of the written one, '
+            'byte-identical, at least as long as the number of newest chunks that fit in S at 16 bytes overhead each; '
+            'non-trivial = at least one write and one read-back; distinct = distinct (operation, argument, outcome) hash',
+    'level_text': 'seeded exploration of overwrite-ring histories and dump instants against a suffix reference model on the real ring',
+    'level_note': 'dump/read-back instants are between operations only (the property does not promise mid-operation dumps); trusts kernel tmpfs/mmap',
+    'technique': 'deterministic simulation (seeded histories with the read-back/dump instant chosen by the scheduler, suffix reference model, ddmin replay)',
+    'design_ref': 'DESIGN.md 4/C11',
+    'real': REAL_RING, 'stub': ['none'],
+    'assumptions': ['read-back happens between logger/writer operations, never inside one'],
 }
 
 NOT_APPLICABLE = {
